@@ -20,7 +20,7 @@ Init == /\ hist = <<>> /\ rxq = <<>> /\ pc = "idle" /\ retries = 0 /\ resp = Str
 
 BeginReq ==
   /\ pc = "idle" /\ Len(hist) < MaxReq
-  /\ \E kind \in {"cmd", "qok", "qnook", "noport", "notext"}, d1 \in Delays, d2 \in Delays, f \in Faults, bl \in BOOLEAN :
+  /\ \E kind \in {"cmd", "qok", "qnook", "noport", "notext"}, d1 \in Delays, d2 \in Delays, f \in (Faults \ {"rkraise"}), bl \in BOOLEAN :
        /\ (bl => (kind \in {"qok", "qnook"} /\ f = "none" /\ d2 = 0))
        /\ (kind \in {"noport", "notext"}) => (d1 = 0 /\ d2 = 0 /\ f = "none")
        /\ (kind # "qok") => d2 = 0
